@@ -426,6 +426,41 @@ func mutate(t *rapid.T, s string) string {
 	}
 }
 
+// BigPatternCase: a like_regex pattern of N characters, too long to carry in a replay file. Whatever Parse
+// accepts must compile at execution time: syntax.Parse, which the validation used alone, skips the size limits
+// for a literal (flag q) pattern that regexp.Compile enforces (D57).
+type BigPatternCase struct {
+	N     int    `json:"n"`
+	Char  string `json:"char"`
+	Flags string `json:"flags"`
+}
+
+var checkBigPattern = register("c04.bigpattern", func(c BigPatternCase) *Violation {
+	in := `$ like_regex "` + strings.Repeat(c.Char, c.N) + `" flag "` + c.Flags + `"`
+	what := fmt.Sprintf("$ like_regex \"%s x %d\" flag %q", c.Char, c.N, c.Flags)
+	p, err, pan := ParseSafe(in)
+	if pan != "" {
+		return violf("Parse(%s) panicked: %.200s", what, pan)
+	}
+	if (p == nil) == (err == nil) {
+		return violf("Parse(%s): exactly one of path and error must be nil", what)
+	}
+	if err != nil {
+		if !errors.Is(err, path.ErrPath) || !errors.Is(err, parser.ErrParse) {
+			return violf("Parse(%s) error does not wrap path.ErrPath and parser.ErrParse", what)
+		}
+		return nil
+	}
+	for _, doc := range []any{"b", strings.Repeat(c.Char, 3)} {
+		if o := RunQuery(context.Background(), p, doc); o.Panic != "" {
+			return violf("Parse accepts %s, but Query panics: %.200s (every accepted like_regex must compile at execution time)", what, o.Panic)
+		} else if o.Class != EOK || len(o.Items) != 1 || o.Items[0] != false {
+			return violf("%s on %q: want [false], got %s", what, doc, o)
+		}
+	}
+	return nil
+})
+
 func TestC04(t *testing.T) {
 	ev := newEv(t, "C04")
 	ev.replayTier(t)
@@ -445,6 +480,22 @@ func TestC04(t *testing.T) {
 		ev.Sample(class, c)
 	}
 
+	t.Run("big_patterns", func(t *testing.T) {
+		b := ev.enum(t)
+		// 11,184,810 literal characters is the most Go's regexp compiles
+		cs := []BigPatternCase{{11184810, "a", "q"}, {11184811, "a", "q"}, {11184811, "a", "iq"}, {12000000, ".", "q"}, {1<<25 + 16, "a", "q"}, {3000000, "é", "q"}, {11184811, "a", ""}, {4000000, "(", "q"}}
+		for i, c := range cs {
+			if !mine(i) {
+				continue
+			}
+			ev.Eval(fmt.Sprintf("bigpattern:%d:%s:%s", c.N, c.Char, c.Flags), true)
+			ev.Sample("big_patterns", c)
+			if !b.Check("c04.bigpattern", c, checkBigPattern(c)) {
+				return
+			}
+		}
+		ev.Exhaustive("like_regex_patterns_around_the_size_limit", int64(len(cs)))
+	})
 	t.Run("nearmiss", func(t *testing.T) {
 		b := ev.enum(t)
 		cs := nearMisses()
